@@ -7,6 +7,8 @@ from .. import paths
 from ..core import FUNC, call_attr, calls_in, const, dotted, is_const, kwarg, norm, text, walk_local
 
 EXPLANATION = [
+    'C06.adv-set-kept: on_hci_le_set_extended_advertising_parameters_command constructs an AdvertisingSet only for a handle not yet in self.advertising_sets.',
+    'C06.lookup-by-address-only: LocalLink.find_classic_controller / find_le_controller select a controller by an address comparison only.',
     'C06.connect-test-reached: every path through Controller.on_advertising_pdu reaches the test of pending_le_connection (no early exit out of the scanning branch).',
     'C06.enum-default: no `value or Enum.MEMBER` default in device / controller / host / link for an enum that has a member 0 (PUBLIC = 0 is a legitimate own-address type).',
     'C06.own-address-agreement: every Device method that sends LE Set Random Address passes the value the device holds in self.random_address afterwards (the one it stores in the same method, or self.random_address itself).',
@@ -529,7 +531,51 @@ def connect_test_reached(ctx):
     R.check(bool(res) and not bad, rule, f'{CTRL}.on_advertising_pdu', 'every path tests the pending connection', f'a path leaves on_advertising_pdu before the pending connection is tested ({bad[:1]}): an initiator that is also scanning never connects to an advertiser the scan branch chose not to report', p.loc(fn))
 
 
+def lookup_by_address_only(ctx):
+    """LocalLink finds the controller that owns an address by the address alone: the same helpers route pages *and* every
+    PDU of an established connection, so a condition on the controller\'s scanning / advertising state in them cuts live
+    links."""
+    R, p = ctx.r, ctx.p
+    rule = 'C06.lookup-by-address-only'
+    ci = p.cls('bumble.link.LocalLink')
+    if ci is None:
+        R.bad(rule, 'bumble.link.LocalLink', 'anchor missing')
+        return
+    n = 0
+    for name in ('find_classic_controller', 'find_le_controller'):
+        fn = ci.methods.get(name)
+        if fn is None:
+            R.bad(rule, f'bumble.link.LocalLink.{name}', 'anchor missing')
+            continue
+        params = [a.arg for a in fn.args.args if a.arg != 'self']
+        for r in [x for x in walk_local(fn) if isinstance(x, ast.Return) and x.value is not None and not is_const(x.value)]:
+            n += 1
+            g = [t for t, pol in paths.flat_guards(r, stop=fn)]
+            extra = [norm(t) for t in g if not (isinstance(t, ast.Compare) and len(t.ops) == 1 and isinstance(t.ops[0], (ast.Eq, ast.NotEq)) and any(isinstance(x, ast.Name) and x.id in params for x in ast.walk(t)))]
+            R.check(bool(g) and not extra, rule, f'bumble.link.LocalLink.{name}', 'decided by the address comparison alone', f'{name} also requires `{extra[0] if extra else ""}`: data and LMP / LL PDUs of an established connection are routed through the same lookup, so they are dropped (and a disconnection never reaches the peer) as soon as the peer changes that state', p.loc(r))
+    R.check(n >= 2, rule, 'bumble.link.LocalLink | controller lookups', f'{n}', f'only {n} found')
+
+
+def adv_set_kept(ctx):
+    """Re-issuing LE Set Extended Advertising Parameters for an existing set updates its parameters: the AdvertisingSet
+    record (random address, advertising and scan-response data) is created only when the handle is new."""
+    R, p = ctx.r, ctx.p
+    rule = 'C06.adv-set-kept'
+    fn = p.find(f'{CTRL}.on_hci_le_set_extended_advertising_parameters_command')
+    if fn is None:
+        R.bad(rule, f'{CTRL}.on_hci_le_set_extended_advertising_parameters_command', 'anchor missing')
+        return
+    ctors = [c for c in ast.walk(fn) if isinstance(c, ast.Call) and call_attr(c) == 'AdvertisingSet']
+    R.check(len(ctors) == 1, rule, f'{CTRL}.on_hci_le_set_extended_advertising_parameters_command | record', 'one construction', f'{len(ctors)} constructions', p.loc(fn))
+    for c in ctors:
+        g = [(norm(t), pol) for t, pol in paths.flat_guards(c, stop=fn)]
+        ok = any('in self.advertising_sets' in t and ((' not in ' in t) == pol) for t, pol in g)
+        R.check(ok, rule, f'{CTRL}.on_hci_le_set_extended_advertising_parameters_command | only when new', 'constructed under `handle not in self.advertising_sets`', 'the record of an existing advertising set is replaced by a fresh one: its random address and its advertising / scan-response data are lost - the set stops advertising under its address (connections to it never complete) and scanners get empty data', p.loc(c))
+
+
 RULES = [
+    ('C06.adv-set-kept', adv_set_kept),
+    ('C06.lookup-by-address-only', lookup_by_address_only),
     ('C06.connect-test-reached', connect_test_reached),
     ('C06.enum-default', enum_default),
     ('C06.own-address-agreement', own_address_agreement),
